@@ -56,3 +56,19 @@ Proof.
   cbv zeta. split; [|split; vm_compute; reflexivity].
   repeat (constructor; try discriminate; try (cbn; unfold KEY_MAX_KB; lia)).
 Qed.
+
+(* the input history that the `input-history` leaves read: a press is recorded the moment it is handed to the layout, to the
+   layout's own queue or - with defchordsv2 configured - to the chord queue first; a release records nothing *)
+From KV Require Import Keyberon.Layout Proofs.C10History.
+Theorem C10_press_is_recorded_in_input_history : forall cfg l c,
+  (entry_queue_len l < QUEUE_SIZE)%nat ->
+  exists l', layout_event2 cfg l true c = Ok l' /\ hist_inputs l' = hist_push_front c (hist_inputs l) /\
+             hist_keys l' = hist_keys l.
+Proof. exact press_is_recorded_in_input_history. Qed.
+Print Assumptions C10_press_is_recorded_in_input_history.
+
+Theorem C10_release_leaves_input_history : forall cfg l c,
+  (entry_queue_len l < QUEUE_SIZE)%nat ->
+  exists l', layout_event2 cfg l false c = Ok l' /\ hist_inputs l' = hist_inputs l.
+Proof. exact release_leaves_input_history. Qed.
+Print Assumptions C10_release_leaves_input_history.
